@@ -1,4 +1,5 @@
 import SpVerif.Model.Join
+import SpVerif.Lemmas.DaskJoin
 import Mathlib.Data.List.Nodup
 import Mathlib.Data.List.Range
 /-!
@@ -173,6 +174,21 @@ theorem C05_join_nodup (how : How) (left : List (Option Pt)) (right : List (Opti
           simp only at hb; rw [hb]
       rw [e1] at e2
       exact hne (Option.some.inj e2)
+
+/-- **the candidate filter loses no pair**: the pair table as `_sjoin_pandas_pandas` computes it - right rows with NaN bounds
+skipped, for every other right row only the left rows that the spatial index reports for its bounds (by C03: those whose box
+overlaps), then the exact predicate - is the table of all hits, because a point that intersects a shape lies in the shape's
+bounding box (`Join.hit_in_bbox`: equality / membership / the line test's own box reject / winding number 0 outside the box of a
+closed ring).  Polygon rings are closed (`WFElem`) -/
+theorem C05_index_prefilter_exact (left : List (Option Pt)) (right : List (Option Elem))
+    (hw : ∀ e, some e ∈ right → WFElem e) : DaskJoin.pairsIdx left right = pairs left right :=
+  DaskJoin.pairsIdx_eq left right hw
+
+/-! non-vacuity: the candidate filter really filters (two of three left rows are no candidates for the polygon), and an unclosed
+ring shows why `WFElem` is needed: the coded winding number is non-zero far to the left of a single upward edge -/
+example : DaskJoin.cand [some (1, 1), none, some (9, 9)] [0, 0, 4, 4] = [0] ∧
+          DaskJoin.pairsIdx [some (1, 1), none, some (9, 9)] [some (.polygon [[(0,0),(4,0),(4,4),(0,4),(0,0)]])] = [(0, 0)] ∧
+          hit (some (-5, 1)) (some (.polygon [[(0,0),(0,2)]])) = true := by decide
 
 /-! non-vacuity: a point matching two overlapping polygons, a missing point, an unmatched polygon -/
 example : join .left [some (1, 1), none, some (9, 9)]
